@@ -229,6 +229,8 @@ def run(chk, ctx) -> None:
            'a commentary is written verbatim after `# ` and read back as the raw remainder of the line (no re-tokenising: inner spacing is text)',
            got=f'reader takes the raw slice: {len(rd) == 1}; writer forms found: {len(wr)}')
     from .helpers import no_format_specs, parse_value_helper
+    from .helpers import default_helpers
+    default_helpers(chk, ctx, 'C16.fields', ['notation'])
     no_format_specs(chk, ctx, 'C16.dump', [fgs] + [f for f in (hh.methods.get('dumps'), hh.methods.get('dump')) if f is not None])
     parse_value_helper(chk, ctx, 'C16.values')
     _fields(chk, ctx, hh, fgs)
